@@ -21,16 +21,27 @@ ASSUMPTIONS = ["user discipline: an edit inside the closure of an explicitly ver
                "fork()ed lifetimes share one hash seed (hash-seed variation is C03's subject)"]
 COMPONENTS = {"real": ["twosigma.memento (all)", "CPython import system / exec of cells", "filesystem store on tmpfs", "process lifetimes via fork"],
               "stub": ["generated user program", "uuid4, clock"]}
-REACH = ["edits_cross_process", "edits_in_process", "restarts", "served_from_store", "ude_raised", "via:partial",
+REACH = ["fresh_interpreter_histories", "edits_cross_process", "edits_in_process", "restarts", "served_from_store", "ude_raised", "via:partial",
          "via:ignore_result", "delivery:inproc-mutate", "delivery:inproc-module"]
 
 
+FRESH = {"quick": 12, "thorough": 400}
+
+
 def cases(tier, seed):
-    return [evo.gen_history(core.run_seed(seed, PROP, i)) for i in range(NCASES[tier])]
+    out = [evo.gen_history(core.run_seed(seed, PROP, i)) for i in range(NCASES[tier])]
+    # histories whose every lifetime is a fresh interpreter with its own PYTHONHASHSEED
+    for i in range(FRESH[tier]):
+        c = evo.gen_history(core.run_seed(seed, PROP + "-fresh", i), max_edits=4)
+        c["fresh_interpreters"] = True
+        out.append(c)
+    return out
 
 
 def execute(case):
     viol, log, stats = evo.execute_history(case, {"c01"})
+    if case.get("fresh_interpreters"):
+        stats["fresh_interpreter_histories"] = 1
     dg = core.digest_of(log)
     nontriv = any(s["op"] == "edit" for s in case["steps"]) and stats.get("calls", 0) > 0
     return {"violations": viol, "digest": dg, "nontrivial": nontriv, "stats": stats, "steps": len(log), "key": dg,
